@@ -17,16 +17,16 @@ EXPLANATION = ("rely/guarantee decomposition: the sequential pieces of map_async
                "most one end marker and stops only on an end marker or a set kill flag (the flag is arbitrary at every test whenever some normal path "
                "of worker or feeder sets it); worker calls the functor once and stores a non-None result whole.  'Under every thread scheduling' then "
                "follows only with queue.Queue being a linearizable FIFO that delivers each entry to exactly one get, deque.append/extend being atomic, "
-               "and the pigeonhole argument in DESIGN.md (p joined workers took p end markers, the end markers are the last p entries, so every earlier "
-               "entry was taken) -- those are assumptions, no verifier here has threads.  A bounded stand-in explores the schedules themselves: every "
+               "and the pigeonhole lemma lemmas/C41Composition.lean (p returned workers took an end marker each, the end markers are the last p entries, "
+               "so all n + p entries were taken; checked by Lean 4 + Mathlib on every run) -- the two library facts are assumptions, no verifier here has threads.  A bounded stand-in explores the schedules themselves: every "
                "interleaving of the real map_async at its synchronisation points (Queue.put/get, Event.isSet/set, deque.append/extend, Thread.start/join) "
                "for small item and thread counts under a controlled scheduler.")
 
 MANIFEST = {
     "text": "Contracts on the real map_async and its nested iter_queue / worker, re-extracted on every run: feeder (symbolic item count and thread "
             "count, loop invariants over a ghost queue and ghost threads), iter_queue (while-loop invariant: yielded == dequeued real items) and "
-            "worker are proved; the composition over thread schedules rests on stated assumptions about queue.Queue and deque and a paper lemma, so "
-            "the level is 'other'.  Bounded stand-in: systematic exploration of every schedule of the real function at its synchronisation points "
+            "worker are proved; the composition over thread schedules rests on stated assumptions about queue.Queue and deque plus a pigeonhole lemma "
+            "checked by Lean (lemmas/C41Composition.lean), so the level is 'other'.  Bounded stand-in: systematic exploration of every schedule of the real function at its synchronisation points "
             "for 0..3 items x 1..3 threads (quick: 0..2 x 1..2 plus seeded samples) with workers that return a value, None or a generator.",
     "note": "Assumed: queue.Queue linearizable multi-consumer FIFO; deque.append/extend atomic (GIL); threads=0 with a non-empty input is outside "
             "the property (no worker exists); an input iterable that raises is outside the property; context switches between synchronisation "
@@ -350,6 +350,27 @@ def t_feeder(ex):
     ex.oblige(f"{P}.ensures.returns_the_deque_the_workers_fill", out.value is pr["results"])
     ex.oblige(f"{P}.ensures.kill_flag_untouched_on_the_normal_path", not g.kill_set)
 
+def t_composition(ex):
+    """the pigeonhole step from the three component contracts to 'every entry taken exactly once', checked by Lean on every run"""
+    import os
+    import shutil
+    import subprocess
+    P = "C41.composition"
+    src = os.path.join(os.path.dirname(os.path.dirname(os.path.abspath(__file__))), "lemmas", "C41Composition.lean")
+    lean = shutil.which("lean")
+    if lean is None or not os.path.exists(src):
+        raise OutOfSubset("lean or lemmas/C41Composition.lean not available: the composition lemma is undecided")
+    text = open(src).read()
+    try:
+        r = subprocess.run([lean, src], capture_output=True, text=True, timeout=900)
+    except subprocess.TimeoutExpired:
+        raise OutOfSubset("lean timed out on lemmas/C41Composition.lean")
+    ex.cover("lean ran")
+    clean = r.returncode == 0 and "error" not in r.stdout and "sorry" not in r.stdout and "sorry" not in text and "axiom " not in text
+    ex.inputs["lean_output"] = (r.stdout + r.stderr)[-400:]
+    ex.oblige(f"{P}.lemma.every_entry_taken_when_all_workers_returned[lean4+Mathlib, no sorry, no axiom]", clean, kind="lemma")
+
+
 def _own_loops(clo):
     """ordinals of the loops of a function that are not inside a nested function, in source order"""
     import ast
@@ -421,5 +442,6 @@ def tasks():
         Task("C41.iter_queue", t_iter_queue, [(TP, "map_async")]),
         Task("C41.worker", t_worker, [(TP, "map_async")]),
         Task("C41.map_async", t_feeder, [(TP, "map_async"), (TP, "reclaim_threads")]),
+        Task("C41.composition", t_composition, [(TP, "map_async")]),
     ] + [Task(f"C41.schedules.{k}", None, [(TP, "map_async")], enumerate=mk_enum(k)) for k in ("generator", "list", "none")] + [
     ]
